@@ -22,7 +22,7 @@ RULE = (
     "(trace invariant), gate/target overlap is checked per step and per in-flight set, and flat acyclic programs whose gates are closed or "
     "runnable no later than their targets are compared with a direct branch model. Non-trivial = some decision excluded a target whose data "
     "inputs were available; distinct = digest of (program shape, inputs, decisions taken, completion order)."
-    ' Also varied: END anywhere in the declared target list or as the true branch of an if/else gate, fallback outside the declared targets, multi-target gates inside loops, gates built through @route/@ifelse decorators, explicit edges= that mirror the inferred topology.'
+    ' Also varied: END anywhere in the declared target list or as the true branch of an if/else gate, fallback outside the declared targets, multi-target gates inside loops, gates built through @route/@ifelse decorators, explicit edges= that mirror the inferred topology; a gate that decides twice in one run (first on the signature default of its input: END; again once the input was produced) - the later decision must be taken and followed.'
 )
 ASSUMPTIONS = ["gate decision functions are pure functions of their arguments, so the harness knows every decision from the history", "no caching here (cached gates are C09/C12)"]
 
@@ -39,8 +39,34 @@ def gen_case(rng: random.Random, tier: str) -> dict:
                 nd["decide"]["choices"] = list(nd["decide"]["choices"]) + [None]
     if rng.random() < 0.3:
         gen.add_substring_names(rng, g)  # one target's name is a prefix of a sibling target's name
+    regate = None
+    if rng.random() < 0.1:
+        # a gate that decides TWICE in one run: its input v carries a signature default, so it first decides on the default (END) and,
+        # once v has been produced (1-2 steps later), decides again - "targets whose gate decided END do not start until a LATER decision
+        # selects them" presupposes that the later decision is taken
+        second = rng.choice(["rgT", "rgT", "@END"])
+        chain = rng.choice([1, 2])
+        nodes = [{"kind": "fn", "name": "rgP1", "params": [{"name": "rgx"}], "outs": ["rgv" if chain == 1 else "rgu"]}]
+        if chain == 2:
+            nodes.append({"kind": "fn", "name": "rgP2", "params": [{"name": "rgu"}], "outs": ["rgv"]})
+        nodes += [
+            {"kind": rng.choice(["route", "route", "ifelse"]), "name": "rgG", "params": [{"name": "rgv", "default": 5}], "targets": ["rgT", "@END"], "default_open": False, "blk": "regate",
+             "decide": {"op": "script", "seq": ["@END", second]}},
+            {"kind": "fn", "name": "rgT", "params": [{"name": "rgx"}], "outs": ["rgt"]},
+            {"kind": "fn", "name": "rgU", "params": [{"name": "rgt"}], "outs": ["rgw"]},
+        ]
+        gnode = nodes[-3]
+        if gnode["kind"] == "ifelse":
+            gnode.update({"when_true": "rgT", "when_false": "@END", "decide": {"op": "script", "seq": [False, second == "rgT"]}})
+            gnode.pop("targets")
+        order = list(range(len(nodes)))
+        rng.shuffle(order)
+        g = {"name": "top", "nodes": nodes, "order": order, "ext": ["rgx"], "lists": [], "seeds": []}
+        regate = {"gate": "rgG", "target": "rgT", "second": second}
     inp = gen.program_inputs(rng, g)
-    return {"graph": g, "inputs": inp, "async": [gen.gen_async_cfg(rng) for _ in range(2)], "max_iterations": rng.choice([None, 6, 12]) if g["seeds"] else None,
+    if regate:
+        inp["omit"] = []
+    return {"regate": regate, "graph": g, "inputs": inp, "async": [gen.gen_async_cfg(rng) for _ in range(2)], "max_iterations": rng.choice([None, 6, 12]) if g["seeds"] else None,
             "api": {"decorators": rng.random() < 0.35, "explicit_edges": rng.random() < 0.3, "wrap_async": False}}
 
 
@@ -262,6 +288,17 @@ def run_case(doc: dict) -> dict:
                     got = out["values"]
                     diff = {k: (got.get(k), model["values"].get(k)) for k in sorted(set(got) | set(model["values"])) if canon(got.get(k)) != canon(model["values"].get(k))}
                     viol.append((f"{tag}:outputs_differ_from_branch_model", {"diff(got,model)": diff}))
+            rg = doc.get("regate")
+            if rg and out["status"] == "completed" and {"rgP1", rg["gate"], rg["target"]} <= {nd["name"] for nd in g["nodes"]}:
+                counts: dict[str, int] = {}
+                for h in enters(w["rt"]):
+                    counts[h["n"]] = counts.get(h["n"], 0) + 1
+                res["stats"]["probe_gate_decided_twice"] = res["stats"].get("probe_gate_decided_twice", 0) + (1 if counts.get(rg["gate"], 0) >= 2 else 0)
+                if counts.get(rg["gate"], 0) != 2:
+                    viol.append((f"{tag}:gate_not_decided_again_after_its_input_was_produced", {"gate_evaluations": counts.get(rg["gate"], 0), "expected": 2}))
+                exp_t = 1 if rg["second"] == rg["target"] else 0
+                if counts.get(rg["target"], 0) != exp_t:
+                    viol.append((f"{tag}:target_runs_differ_from_later_decision", {"target_runs": counts.get(rg["target"], 0), "expected": exp_t, "second_decision": rg["second"]}))
             sigs.append(completion_sig(w["rt"]))
     except BuildError:
         res["discard"] = "build_error"
